@@ -32,16 +32,22 @@ ASSUMPTIONS = ["each pairwise step is the library's own merge_with on fresh copi
 REACH = [("yamlpath/commands/yaml_merge.py", "merge_condense_all,merge_across,merge_matrix,merge_docs,get_doc_mergers", "yaml_merge multi-document functions"),
          ("yamlpath/merger/mergerconfig.py", "get_multidoc_mode", "MergerConfig.get_multidoc_mode")]
 SIZES = {"quick": dict(lib=12000, cli=150), "thorough": dict(lib=400000, cli=3000)}
-REQUIRED_COUNTERS = ["cli_stdin_stream_cases", "cli_stdin_stream_ends_empty", "lib_cases", "cli_cases", "matrix_cases", "anchored_stream_cases"]
+REQUIRED_COUNTERS = ["association_cases", "cli_stdin_stream_cases", "cli_stdin_stream_ends_empty", "lib_cases", "cli_cases", "matrix_cases", "anchored_stream_cases"]
 MODES = ["condense_all", "merge_across", "matrix_merge"]
 SAMPLE = [("deep", "all", "all", "unique"), ("deep", "unique", "deep", "unique"), ("deep", "all", "deep", "unique"),
           ("right", "right", "right", "right")]
 
 
+_MERGEAT = [None]       # the --mergeat path of the case being run (None: the root)
+
+
 def cfg_ns(combo, mode):
     """combo = (hashes, arrays, aoh, sets[, anchors])"""
-    return SimpleNamespace(hashes=combo[0], arrays=combo[1], aoh=combo[2], sets=combo[3], multi_doc_mode=mode,
-                           anchors=combo[4] if len(combo) > 4 else "stop")
+    ns = SimpleNamespace(hashes=combo[0], arrays=combo[1], aoh=combo[2], sets=combo[3], multi_doc_mode=mode,
+                         anchors=combo[4] if len(combo) > 4 else "stop")
+    if _MERGEAT[0]:
+        ns.mergeat = _MERGEAT[0]
+    return ns
 
 
 def pair(acc_text_or_data, rtext, combo, mode):
@@ -115,7 +121,7 @@ def stream_text(texts):
 
 
 def run_lib(ctx, ltexts, rtexts, combo, mode):
-    case = {"lhs_stream": ltexts, "rhs_stream": rtexts, "mode": mode, "policies": combo, "via": "library"}
+    case = {"lhs_stream": ltexts, "rhs_stream": rtexts, "mode": mode, "policies": combo, "via": "library", "mergeat": _MERGEAT[0]}
     ctx.evaluations += 1
     ctx.counters["lib_cases"] = ctx.counters.get("lib_cases", 0) + 1
     if mode == "matrix_merge":
@@ -157,8 +163,30 @@ def run_lib(ctx, ltexts, rtexts, combo, mode):
             return
 
 
+def association_case(ctx, rng, workdir):
+    """Inputs on which the ORDER OF ASSOCIATION of the pairwise merges shows: a merge point below the root (a right-hand
+    document merged into another right-hand document would land under that path again) or an Array root receiving
+    Hashes / scalars.  Library and tool, every mode."""
+    if rng.random() < 0.6:
+        _MERGEAT[0] = rng.choice(["/x", "x", "/x/y"])
+        ltexts = [rng.choice(["{x: {a: 1, y: {q: 1}}, z: 2}", "{x: {y: {}}}", "{x: {y: {k: [1]}}, w: [1]}"]) for _ in range(rng.choice([1, 1, 2]))]
+        rtexts = [rng.choice(["{b: 2}", "{c: [1]}", "{x: {b: 3}}", "{a: 9, y: {r: 2}}", "{k: [2]}"]) for _ in range(rng.choice([2, 2, 3]))]
+    else:
+        _MERGEAT[0] = None
+        ltexts = [rng.choice(["[1]", "[{a: 0}]", "[x, y]"]) for _ in range(rng.choice([1, 1, 2]))]
+        rtexts = [rng.choice(["{a: 1}", "{b: 2}", "[2]", "[3, 4]", "[{a: 1}]"]) for _ in range(rng.choice([2, 2, 3]))]
+    combo = rng.choice(SAMPLE)
+    ctx.counters["association_cases"] = ctx.counters.get("association_cases", 0) + 1
+    try:
+        for mode in MODES:
+            run_lib(ctx, ltexts, rtexts, combo, mode)
+        run_cli(ctx, ltexts, rtexts, combo, rng.choice(MODES + ["condense_all"]), workdir)
+    finally:
+        _MERGEAT[0] = None
+
+
 def run_cli(ctx, ltexts, rtexts, combo, mode, workdir):
-    case = {"lhs_stream": ltexts, "rhs_stream": rtexts, "mode": mode, "policies": combo, "via": "yaml-merge"}
+    case = {"lhs_stream": ltexts, "rhs_stream": rtexts, "mode": mode, "policies": combo, "via": "yaml-merge", "mergeat": _MERGEAT[0]}
     os.makedirs(workdir, exist_ok=True)
     lf, rf = os.path.join(workdir, "l.yaml"), os.path.join(workdir, "r.yaml")
     with open(lf, "w") as f:
@@ -175,7 +203,7 @@ def run_cli(ctx, ltexts, rtexts, combo, mode, workdir):
     except Exception:
         return
     r = cli.run("yaml_merge", ["-S", "-D", "yaml", "-M", mode, "-H", combo[0], "-A", combo[1], "-O", combo[2], "-E", combo[3]]
-                + (["-a", combo[4]] if len(combo) > 4 else []) + [lf, rf])
+                + (["-a", combo[4]] if len(combo) > 4 else []) + (["-m", _MERGEAT[0]] if _MERGEAT[0] else []) + [lf, rf])
     if r["exc"]:
         ctx.violation("cli-crash/%s" % mode, {"case": case, "summary": r["exc"][:200]})
         return
@@ -265,6 +293,9 @@ def run_shard(ctx):
     ncli = 0
     n = 0
     while ctx.counters.get("lib_cases", 0) < want:
+        if rng.random() < 0.02:
+            association_case(ctx, rng, workdir)
+            continue
         if rng.random() < 0.25:
             # streams whose documents define and alias scalar anchors from one small name pool: every step of a
             # multi-document merge must resolve conflicts against the document accumulated so far
@@ -327,7 +358,14 @@ def replay(w):
         def violation(self, m, w):
             self.v.append((m, w["summary"]))
     cx = _Ctx()
-    run_lib(cx, c["lhs_stream"], c["rhs_stream"], tuple(c["policies"]), c["mode"])
+    _MERGEAT[0] = c.get("mergeat")
+    try:
+        if c.get("via") == "yaml-merge":
+            run_cli(cx, c["lhs_stream"], c["rhs_stream"], tuple(c["policies"]), c["mode"], os.path.join(os.environ.get("VF_WORKDIR", "/dev/shm"), "c18-replay"))
+        else:
+            run_lib(cx, c["lhs_stream"], c["rhs_stream"], tuple(c["policies"]), c["mode"])
+    finally:
+        _MERGEAT[0] = None
     return {"violated": bool(cx.v), "found": cx.v}
 
 
